@@ -174,7 +174,7 @@ pub const OPERATORS: &[&str] = &[
     "root-missing", "root-multiple", "text-after-root", "text-before-root", "xmldecl-misplaced", "xmldecl-dup", "xmldecl-version", "xmldecl-order",
     "xmldecl-noversion", "pi-reserved", "pi-reserved-case", "doctype-dup", "doctype-after-root", "pi-unclosed", "comment-unclosed", "cdata-unclosed",
     "cdata-outside-root", "attr-entity-lt", "entity-recursive", "entity-unparsed-ref", "entity-external-attr", "empty-document", "etag-attr",
-    "entity-value-lt-ref", "entity-amp-ref", "entity-amp-attr", "entity-charref-illegal", "entity-hidden-recursion", "entity-dup-first-binds", "attr-dup-lookalike", "stag-unclosed", "attr-value-unquoted-end", "doctype-noname", "name-empty",
+    "entity-value-lt-ref", "entity-amp-ref", "entity-amp-attr", "entity-charref-illegal", "entity-hidden-recursion", "entity-dup-first-binds", "attr-dup-lookalike", "entity-cdata-end-content", "stag-unclosed", "attr-value-unquoted-end", "doctype-noname", "name-empty",
 ];
 
 fn find_kind(toks: &[Tok], k: TK, r: &mut Rng) -> Option<usize> {
@@ -285,6 +285,8 @@ pub fn apply_operator(op: &str, toks: &[Tok], r: &mut Rng) -> Option<String> {
         "entity-dup-first-binds" => { let i = content_site(&t, r)?; t.insert(i, tok(TK::EntRef, "&zdd;")); return Some(with_decl(&t, r.pick_s(&["<!ENTITY zdd \"a&#38;b\"><!ENTITY zdd \"fine\">", "<!ENTITY zdd \"&zdd;\"><!ENTITY zdd \"fine\">", "<!ENTITY zdd SYSTEM \"u.bin\" NDATA zn><!NOTATION zn SYSTEM \"n\"><!ENTITY zdd \"fine\">", "<!ENTITY zdd \"&#38;#1;\"><!ENTITY zdd \"fine\"><!ENTITY zdd \"x\">"]))); }
         // a repeated attribute name with an attribute of the same local part (other prefix, or a declaration of that prefix) in between
         "attr-dup-lookalike" => { let i = find_kind(&t, TK::STagOpen, r)?; let v = r.pick_s(&[" zp:zq='1' zq='2' zp:zq='3' xmlns:zp='urn:z'", " zq='1' zp:zq='2' zq='3' xmlns:zp='urn:z'", " xmlns:zq='urn:u' zq='1' xmlns:zq='urn:v'", " zq='1' xmlns:zq='urn:u' zr='2' zq='3'", " xmlns:zp='urn:z' zp:zq='1' zr:zq='2' zp:zq='3' xmlns:zr='urn:y'"]); t[i].s = format!("{}{}", t[i].s, v); }
+        // "]]>" is not character data, also when it arrives through the replacement text of an entity (in an attribute value it is fine)
+        "entity-cdata-end-content" => { let i = content_site(&t, r)?; t.insert(i, tok(TK::EntRef, "&zce;")); return Some(with_decl(&t, r.pick_s(&["<!ENTITY zce \"a]]&#62;b\">", "<!ENTITY zce \"]]>\"><!ENTITY zcf \"x\">", "<!ENTITY zcg \"&#93;]>\"><!ENTITY zce \"u&zcg;v\">", "<!ENTITY zce \"&#x5D;&#x5D;&#x3E;\">"]))); }
         "stag-unclosed" => { let i = find_kind(&t, TK::STagClose, r)?; t[i].s = String::new(); if i + 1 < t.len() && t[i + 1].k == TK::Text { t[i + 1].s = format!("<b/>{}", t[i + 1].s.replace('>', "")); } else { t.insert(i + 1, tok(TK::Text, "<b/>")); } }
         "attr-value-unquoted-end" => { let i = find_kind(&t, TK::AttrValue, r)?; let q = t[i].s.chars().next().unwrap(); let other = if q == '"' { '\'' } else { '"' }; t[i].s = format!("{}v{}", q, other); for x in t.iter_mut().skip(i + 1) { x.s = x.s.replace(q, ""); } }
         "elem-name-colon2" => { let _ = root_content; return Some(r.pick_s(&["<a:b:c xmlns:a=\"u\"/>", "<:a/>", "<a:/>", "<a xmlns:p=\"u\" p::x=\"1\"/>", "<a :x=\"1\"/>"]).to_string()); }
